@@ -421,6 +421,7 @@ func verifLemmaProgress(g *Graph, t *Task) {}
 //@ ghost epoch int
 //@ ghost blocking bool
 //@ ghost readEpoch int
+//@ ghost readVersion int
 //@ ghost logv int
 //@ ghost appended []Event
 //@ ghost commits int
@@ -457,8 +458,9 @@ func verifLemmaProgress(g *Graph, t *Task) {}
 //@ func readEvents
 //@   trusted reads and parses the log file; records the lock epoch in which the read happened
 //@   ensures [epoch] readEpoch == epoch
+//@   ensures [version] readVersion == logv
 //@   ensures [fresh] ret0 == nil || fresh(ret0)
-//@   modifies ghost readEpoch
+//@   modifies ghost readEpoch, ghost readVersion
 // ---- storage layer: the log file as ghost state (C03, C04, C13) ----
 // logWrites counts write(2) calls on the log; tailTorn says the log ends in a partial line (no final newline);
 // tmpStage follows the temp file of a rewrite: 0 none, 1 created/truncated, 2 every byte handed to the kernel,
@@ -537,8 +539,9 @@ func verifLemmaProgress(g *Graph, t *Task) {}
 //@ func loadGraph
 //@   ensures [wf] err == nil ==> wfMaps(ret0) && wfDeps(ret0) && wfTasks(ret0) && tombExcluded(ret0)
 //@   ensures [epoch] readEpoch == epoch
+//@   ensures [version] readVersion == logv
 //@   ensures [nil-on-error] err != nil ==> ret0 == nil
-//@   modifies ghost readEpoch
+//@   modifies ghost readEpoch, ghost readVersion
 
 //@ func RunClaimOldestReady$1
 //@   option elems-index
@@ -557,7 +560,7 @@ func verifLemmaProgress(g *Graph, t *Task) {}
 //@        dec_StateEvent(content(appended[1].Data)).ID == chosen.ID && dec_StateEvent(content(appended[1].Data)).NewState == "doing"
 //@   ensures [effect] ret == nil ==> effState(appended, chosen.ID, chosen.State) == "doing" &&
 //@        effClaim(appended, chosen.ID, chosen.ClaimedBy) == agentID
-//@   modifies cell chosen, cell now, ghost logv, ghost commits, ghost appended, ghost logWrites, ghost tailTorn, ghost tmpStage, ghost readEpoch
+//@   modifies cell chosen, cell now, ghost logv, ghost commits, ghost appended, ghost logWrites, ghost tailTorn, ghost tmpStage, ghost readEpoch, ghost readVersion
 
 // ---- output channel (C16) ----
 //@ ghost stdoutJSON int
@@ -578,7 +581,7 @@ func verifLemmaProgress(g *Graph, t *Task) {}
 //@   ensures [one-commit] commits <= old(commits) + 1
 //@   ensures [json-one-value] opts.JSON && ret == nil ==> stdoutJSON == old(stdoutJSON) + 1 && stdoutText == old(stdoutText)
 //@   ensures [json-error-quiet] opts.JSON && ret != nil ==> stdoutJSON <= old(stdoutJSON) + 1 && stdoutText == old(stdoutText)
-//@   modifies ghost lk, ghost epoch, ghost blocking, ghost fsWrites, ghost fsExists, ghost logv, ghost commits, ghost appended, ghost logWrites, ghost tailTorn, ghost tmpStage, ghost readEpoch
+//@   modifies ghost lk, ghost epoch, ghost blocking, ghost fsWrites, ghost fsExists, ghost logv, ghost commits, ghost appended, ghost logWrites, ghost tailTorn, ghost tmpStage, ghost readEpoch, ghost readVersion
 //@   modifies ghost stdoutJSON, ghost stdoutText, ghost stderrText
 
 // ---- the set path (C06, C10, C02) ----
@@ -601,7 +604,7 @@ func verifLemmaProgress(g *Graph, t *Task) {}
 //@   ensures [text] ret == nil ==> effTitle(appended, id, task.Title) == ite(has(updates, "title"), trimSpace(updates["title"]), task.Title) &&
 //@        effBody(appended, id, task.Body) == ite(has(updates, "body"), updates["body"], task.Body)
 //@   ensures [quiet] quiet ==> stdoutText == old(stdoutText)
-//@   modifies ghost logv, ghost commits, ghost appended, ghost logWrites, ghost tailTorn, ghost tmpStage, ghost readEpoch, ghost stdoutText
+//@   modifies ghost logv, ghost commits, ghost appended, ghost logWrites, ghost tailTorn, ghost tmpStage, ghost readEpoch, ghost readVersion, ghost stdoutText
 //@ loop 0 range remainingUpdates
 //@   invariant [fresh] unknown == nil || fresh(unknown)
 
@@ -660,7 +663,7 @@ func verifLemmaProgress(g *Graph, t *Task) {}
 //@   ensures [acyclic-step] ret == nil && eventType == "link" && ranked(graph) ==>
 //@        (forall f string, x string :: edge(graph, f, x) || (f == from && x == to) ==>
 //@            rerank(hasCycle_visited, f, absDiff(rankOf(to), rankOf(from)) + 1) > rerank(hasCycle_visited, x, absDiff(rankOf(to), rankOf(from)) + 1))
-//@   modifies ghost logv, ghost commits, ghost appended, ghost logWrites, ghost tailTorn, ghost tmpStage, ghost readEpoch
+//@   modifies ghost logv, ghost commits, ghost appended, ghost logWrites, ghost tailTorn, ghost tmpStage, ghost readEpoch, ghost readVersion
 
 //@ spec sectionFrame() bool = lk == 0 && blocking == old(blocking)
 
@@ -671,7 +674,7 @@ func verifLemmaProgress(g *Graph, t *Task) {}
 //@   ensures [fail-unchanged] ret != nil ==> logv == old(logv) && commits == old(commits)
 //@   ensures [one-commit] commits <= old(commits) + 1
 //@   ensures [committed] ret == nil ==> commits == old(commits) + 1 && logv == old(logv) + 1
-//@   modifies ghost lk, ghost epoch, ghost blocking, ghost fsWrites, ghost fsExists, ghost logv, ghost commits, ghost appended, ghost logWrites, ghost tailTorn, ghost tmpStage, ghost readEpoch
+//@   modifies ghost lk, ghost epoch, ghost blocking, ghost fsWrites, ghost fsExists, ghost logv, ghost commits, ghost appended, ghost logWrites, ghost tailTorn, ghost tmpStage, ghost readEpoch, ghost readVersion
 
 //@ func buildSequenceEdges
 //@   ensures [count] len(order) >= 2 ==> len(ret) == len(order) - 1
@@ -692,7 +695,7 @@ func verifLemmaProgress(g *Graph, t *Task) {}
 //@   canary  [two-commits] !(ret == nil && commits == old(commits) + 2)
 //@   ensures [json-one-value] opts.JSON && ret == nil ==> stdoutJSON == old(stdoutJSON) + 1 && stdoutText == old(stdoutText)
 //@   ensures [json-error-quiet] opts.JSON && ret != nil ==> stdoutJSON == old(stdoutJSON) && stdoutText == old(stdoutText)
-//@   modifies ghost lk, ghost epoch, ghost blocking, ghost fsWrites, ghost fsExists, ghost logv, ghost commits, ghost appended, ghost logWrites, ghost tailTorn, ghost tmpStage, ghost readEpoch
+//@   modifies ghost lk, ghost epoch, ghost blocking, ghost fsWrites, ghost fsExists, ghost logv, ghost commits, ghost appended, ghost logWrites, ghost tailTorn, ghost tmpStage, ghost readEpoch, ghost readVersion
 //@   modifies ghost stdoutJSON, ghost stdoutText, ghost stderrText
 //@ loop 0 range edges
 //@   invariant [progress] lk == 0 && blocking == old(blocking) && commits == old(commits) + index && logv == old(logv) + index && index <= len(edges)
@@ -736,7 +739,7 @@ func verifLemmaProgress(g *Graph, t *Task) {}
 //@        dec_NewTaskEvent(content(appended[0].Data)).Body == body
 //@   ensures [reply-is-truth] ret == nil ==> output.ID == id && output.State == "todo" && output.Title == title && output.Body == body &&
 //@        output.EpicID == ite(isEpic, "", epicID) && output.Kind == ite(isEpic, "epic", "task")
-//@   modifies cell output, ghost logv, ghost commits, ghost appended, ghost logWrites, ghost tailTorn, ghost tmpStage, ghost readEpoch
+//@   modifies cell output, ghost logv, ghost commits, ghost appended, ghost logWrites, ghost tailTorn, ghost tmpStage, ghost readEpoch, ghost readVersion
 
 //@ func createTaskWithDir
 //@   requires [unlocked] lk == 0
@@ -747,7 +750,7 @@ func verifLemmaProgress(g *Graph, t *Task) {}
 //@   ensures [committed] err == nil ==> commits == old(commits) + 1 && logv == old(logv) + 1
 //@   ensures [reply] err == nil ==> ret0.State == "todo" && ret0.Title == title && ret0.Body == body
 //@   ensures [quiet] stdoutJSON == old(stdoutJSON) && stdoutText == old(stdoutText)
-//@   modifies ghost lk, ghost epoch, ghost blocking, ghost fsWrites, ghost fsExists, ghost logv, ghost commits, ghost appended, ghost logWrites, ghost tailTorn, ghost tmpStage, ghost readEpoch
+//@   modifies ghost lk, ghost epoch, ghost blocking, ghost fsWrites, ghost fsExists, ghost logv, ghost commits, ghost appended, ghost logWrites, ghost tailTorn, ghost tmpStage, ghost readEpoch, ghost readVersion
 //@ func createTask
 //@   requires [unlocked] lk == 0
 //@   ensures [released] lk == 0
@@ -757,7 +760,7 @@ func verifLemmaProgress(g *Graph, t *Task) {}
 //@   ensures [committed] err == nil ==> commits == old(commits) + 1 && logv == old(logv) + 1
 //@   ensures [reply] err == nil ==> ret0.State == "todo" && ret0.Title == title && ret0.Body == body
 //@   ensures [quiet] stdoutJSON == old(stdoutJSON) && stdoutText == old(stdoutText)
-//@   modifies ghost lk, ghost epoch, ghost blocking, ghost fsWrites, ghost fsExists, ghost logv, ghost commits, ghost appended, ghost logWrites, ghost tailTorn, ghost tmpStage, ghost readEpoch
+//@   modifies ghost lk, ghost epoch, ghost blocking, ghost fsWrites, ghost fsExists, ghost logv, ghost commits, ghost appended, ghost logWrites, ghost tailTorn, ghost tmpStage, ghost readEpoch, ghost readVersion
 
 // ---- prune (C09, C02, C10) ----
 //@ func buildPruneItems
@@ -788,7 +791,7 @@ func verifLemmaProgress(g *Graph, t *Task) {}
 //@   ensures [apply-equals-plan] ret == nil && apply && len(plan.PrunedIDs) > 0 ==> len(appended) == len(plan.PrunedIDs) &&
 //@        (forall i int :: 0 <= i && i < len(plan.PrunedIDs) ==> appended[i].Type == "tombstone" &&
 //@           decOK_TombstoneEvent(content(appended[i].Data)) && dec_TombstoneEvent(content(appended[i].Data)).ID == plan.PrunedIDs[i])
-//@   modifies cell plan, ghost logv, ghost commits, ghost appended, ghost logWrites, ghost tailTorn, ghost tmpStage, ghost readEpoch
+//@   modifies cell plan, ghost logv, ghost commits, ghost appended, ghost logWrites, ghost tailTorn, ghost tmpStage, ghost readEpoch, ghost readVersion
 //@ func runPrune
 //@   requires [unlocked] lk == 0
 //@   ensures [released] lk == 0
@@ -797,7 +800,7 @@ func verifLemmaProgress(g *Graph, t *Task) {}
 //@   ensures [one-commit] commits <= old(commits) + 1
 //@   ensures [dry-run-pure] !apply ==> logv == old(logv) && commits == old(commits)
 //@   ensures [quiet] stdoutJSON == old(stdoutJSON) && stdoutText == old(stdoutText)
-//@   modifies ghost lk, ghost epoch, ghost blocking, ghost fsWrites, ghost fsExists, ghost logv, ghost commits, ghost appended, ghost logWrites, ghost tailTorn, ghost tmpStage, ghost readEpoch
+//@   modifies ghost lk, ghost epoch, ghost blocking, ghost fsWrites, ghost fsExists, ghost logv, ghost commits, ghost appended, ghost logWrites, ghost tailTorn, ghost tmpStage, ghost readEpoch, ghost readVersion
 
 // ---- results (C20, C10, C02) ----
 //@ func validateResultPath
@@ -834,7 +837,7 @@ func verifLemmaProgress(g *Graph, t *Task) {}
 //@        dec_ResultEvent(content(appended[0].Data)).Sha256AtAttach == sha256hex(fileData(pathJoin(repoDir, cleanPath)))
 //@   ensures [fail-appended] ret != nil ==> appended == old(appended)
 //@   ensures [event-allocated] ret == nil ==> allocated(appended)
-//@   modifies ghost logv, ghost commits, ghost appended, ghost logWrites, ghost tailTorn, ghost tmpStage, ghost readEpoch
+//@   modifies ghost logv, ghost commits, ghost appended, ghost logWrites, ghost tailTorn, ghost tmpStage, ghost readEpoch, ghost readVersion
 //@ func writeResultEvent
 //@   requires [unlocked] lk == 0
 //@   ensures [released] lk == 0
@@ -845,7 +848,7 @@ func verifLemmaProgress(g *Graph, t *Task) {}
 //@   ensures [quiet] stdoutJSON == old(stdoutJSON) && stdoutText == old(stdoutText)
 //@   ensures [result-only] ret == nil ==> len(appended) == 1 && appended[0].Type == "result" && allocated(appended)
 //@   ensures [fail-appended] ret != nil ==> appended == old(appended)
-//@   modifies ghost lk, ghost epoch, ghost blocking, ghost fsWrites, ghost fsExists, ghost logv, ghost commits, ghost appended, ghost logWrites, ghost tailTorn, ghost tmpStage, ghost readEpoch
+//@   modifies ghost lk, ghost epoch, ghost blocking, ghost fsWrites, ghost fsExists, ghost logv, ghost commits, ghost appended, ghost logWrites, ghost tailTorn, ghost tmpStage, ghost readEpoch, ghost readVersion
 
 //@ func applySetUpdates
 //@   requires [unlocked] lk == 0
@@ -858,7 +861,7 @@ func verifLemmaProgress(g *Graph, t *Task) {}
 //@   ensures [no-json] stdoutJSON == old(stdoutJSON)
 //@   ensures [version-tracks-commits] logv - old(logv) == commits - old(commits) && commits >= old(commits)
 //@   ensures [reject-touches-result-only] ret != nil && commits != old(commits) ==> len(appended) == 1 && appended[0].Type == "result"
-//@   modifies ghost lk, ghost epoch, ghost blocking, ghost fsWrites, ghost fsExists, ghost logv, ghost commits, ghost appended, ghost logWrites, ghost tailTorn, ghost tmpStage, ghost readEpoch
+//@   modifies ghost lk, ghost epoch, ghost blocking, ghost fsWrites, ghost fsExists, ghost logv, ghost commits, ghost appended, ghost logWrites, ghost tailTorn, ghost tmpStage, ghost readEpoch, ghost readVersion
 //@   modifies ghost stdoutText, map[string]string at updates
 
 // ---- rewrite primitives and compaction (C05, C02) ----
@@ -897,7 +900,7 @@ func verifLemmaProgress(g *Graph, t *Task) {}
 //@   ensures [fail-unchanged] ret != nil ==> logv == old(logv) && commits == old(commits)
 //@   ensures [one-commit] commits <= old(commits) + 1
 //@   ensures [writes-what-it-compacted] ret == nil ==> appended == compacted
-//@   modifies ghost logv, ghost commits, ghost appended, ghost logWrites, ghost tailTorn, ghost tmpStage, ghost readEpoch
+//@   modifies ghost logv, ghost commits, ghost appended, ghost logWrites, ghost tailTorn, ghost tmpStage, ghost readEpoch, ghost readVersion
 //@ func RunCompact
 //@   requires [unlocked] lk == 0
 //@   ensures [released] lk == 0
@@ -906,7 +909,7 @@ func verifLemmaProgress(g *Graph, t *Task) {}
 //@   ensures [one-commit] commits <= old(commits) + 1
 //@   ensures [json-one-value] opts.JSON && ret == nil ==> stdoutJSON == old(stdoutJSON) + 1 && stdoutText == old(stdoutText)
 //@   ensures [json-error-quiet] opts.JSON && ret != nil ==> stdoutJSON == old(stdoutJSON) && stdoutText == old(stdoutText)
-//@   modifies ghost lk, ghost epoch, ghost blocking, ghost fsWrites, ghost fsExists, ghost logv, ghost commits, ghost appended, ghost logWrites, ghost tailTorn, ghost tmpStage, ghost readEpoch
+//@   modifies ghost lk, ghost epoch, ghost blocking, ghost fsWrites, ghost fsExists, ghost logv, ghost commits, ghost appended, ghost logWrites, ghost tailTorn, ghost tmpStage, ghost readEpoch, ghost readVersion
 //@   modifies ghost stdoutJSON, ghost stdoutText, ghost stderrText
 
 // ---- command entry points (C02, C10, C16) ----
@@ -950,7 +953,7 @@ func verifLemmaProgress(g *Graph, t *Task) {}
 //@   ensures [one-commit] commits <= old(commits) + 1
 //@   ensures [json-one-value] opts.JSON && ret == nil ==> stdoutJSON == old(stdoutJSON) + 1 && stdoutText == old(stdoutText)
 //@   ensures [json-error-quiet] opts.JSON && ret != nil ==> stdoutJSON == old(stdoutJSON) && stdoutText == old(stdoutText)
-//@   modifies ghost lk, ghost epoch, ghost blocking, ghost fsWrites, ghost fsExists, ghost logv, ghost commits, ghost appended, ghost logWrites, ghost tailTorn, ghost tmpStage, ghost readEpoch
+//@   modifies ghost lk, ghost epoch, ghost blocking, ghost fsWrites, ghost fsExists, ghost logv, ghost commits, ghost appended, ghost logWrites, ghost tailTorn, ghost tmpStage, ghost readEpoch, ghost readVersion
 //@   modifies ghost stdoutJSON, ghost stdoutText, ghost stderrText
 
 //@ func RunSet
@@ -961,7 +964,7 @@ func verifLemmaProgress(g *Graph, t *Task) {}
 //@   ensures [one-commit] commits <= old(commits) + 1
 //@   ensures [json-one-value] opts.JSON && ret == nil ==> stdoutJSON == old(stdoutJSON) + 1 && stdoutText == old(stdoutText)
 //@   ensures [json-error-at-most-one] opts.JSON && ret != nil ==> stdoutJSON <= old(stdoutJSON) + 1 && stdoutText == old(stdoutText)
-//@   modifies ghost lk, ghost epoch, ghost blocking, ghost fsWrites, ghost fsExists, ghost logv, ghost commits, ghost appended, ghost logWrites, ghost tailTorn, ghost tmpStage, ghost readEpoch
+//@   modifies ghost lk, ghost epoch, ghost blocking, ghost fsWrites, ghost fsExists, ghost logv, ghost commits, ghost appended, ghost logWrites, ghost tailTorn, ghost tmpStage, ghost readEpoch, ghost readVersion
 //@   modifies ghost stdoutJSON, ghost stdoutText, ghost stderrText
 
 //@ func RunNewEpic
@@ -972,18 +975,27 @@ func verifLemmaProgress(g *Graph, t *Task) {}
 //@   ensures [one-commit] commits <= old(commits) + 1
 //@   ensures [json-one-value] opts.JSON && ret == nil ==> stdoutJSON == old(stdoutJSON) + 1 && stdoutText == old(stdoutText)
 //@   ensures [json-error-at-most-one] opts.JSON && ret != nil ==> stdoutJSON <= old(stdoutJSON) + 1 && stdoutText == old(stdoutText)
-//@   modifies ghost lk, ghost epoch, ghost blocking, ghost fsWrites, ghost fsExists, ghost logv, ghost commits, ghost appended, ghost logWrites, ghost tailTorn, ghost tmpStage, ghost readEpoch
+//@   modifies ghost lk, ghost epoch, ghost blocking, ghost fsWrites, ghost fsExists, ghost logv, ghost commits, ghost appended, ghost logWrites, ghost tailTorn, ghost tmpStage, ghost readEpoch, ghost readVersion
 //@   modifies ghost stdoutJSON, ghost stdoutText, ghost stderrText
 
+//@ func withCurrentState
+//@   requires [unlocked] lk == 0
+//@   ensures [reply-state-from-read] err == nil && has(graph.Tasks, old(created.ID)) ==> ret0.State == graph.Tasks[old(created.ID)].State
+//@   ensures [reply-rest-kept] ret0.ID == old(created.ID) && ret0.Kind == old(created.Kind) && ret0.UUID == old(created.UUID) && ret0.EpicID == old(created.EpicID) &&
+//@        ret0.Title == old(created.Title) && ret0.Body == old(created.Body) && ret0.CreatedAt == old(created.CreatedAt)
+//@   ensures [reply-read-is-current] readVersion == logv
+//@   ensures [read-pure] logv == old(logv) && commits == old(commits)
+//@   modifies ghost readEpoch, ghost readVersion
 //@ func RunNewTask
 //@   requires [unlocked] lk == 0
 //@   ensures [released] lk == 0
 //@   ensures [never-blocks] blocking == old(blocking)
 //@   ensures [fail-unchanged] ret != nil ==> logv == old(logv)
 //@   ensures [one-commit] commits <= old(commits) + 1
+//@   ensures [reply-state-read-after-updates] opts.JSON && ret == nil && commits > old(commits) + 1 ==> readVersion == logv
 //@   ensures [json-one-value] opts.JSON && ret == nil ==> stdoutJSON == old(stdoutJSON) + 1 && stdoutText == old(stdoutText)
 //@   ensures [json-error-at-most-one] opts.JSON && ret != nil ==> stdoutJSON <= old(stdoutJSON) + 1 && stdoutText == old(stdoutText)
-//@   modifies ghost lk, ghost epoch, ghost blocking, ghost fsWrites, ghost fsExists, ghost logv, ghost commits, ghost appended, ghost logWrites, ghost tailTorn, ghost tmpStage, ghost readEpoch
+//@   modifies ghost lk, ghost epoch, ghost blocking, ghost fsWrites, ghost fsExists, ghost logv, ghost commits, ghost appended, ghost logWrites, ghost tailTorn, ghost tmpStage, ghost readEpoch, ghost readVersion
 //@   modifies ghost stdoutJSON, ghost stdoutText, ghost stderrText
 
 //@ func (*TaskInput).ToKeyValueMap
@@ -1041,7 +1053,7 @@ func verifLemmaProgress(g *Graph, t *Task) {}
 //@   ensures [never-blocks] blocking == old(blocking)
 //@   ensures [read-pure] logv == old(logv) && commits == old(commits)
 //@   ensures [quiet] stdoutJSON == old(stdoutJSON) && stdoutText == old(stdoutText)
-//@   modifies ghost lk, ghost epoch, ghost blocking, ghost fsWrites, ghost fsExists, ghost logv, ghost commits, ghost appended, ghost logWrites, ghost tailTorn, ghost tmpStage, ghost readEpoch
+//@   modifies ghost lk, ghost epoch, ghost blocking, ghost fsWrites, ghost fsExists, ghost logv, ghost commits, ghost appended, ghost logWrites, ghost tailTorn, ghost tmpStage, ghost readEpoch, ghost readVersion
 //@ func RunPruneApply
 //@   requires [unlocked] lk == 0
 //@   ensures [released] lk == 0
@@ -1049,7 +1061,7 @@ func verifLemmaProgress(g *Graph, t *Task) {}
 //@   ensures [fail-unchanged] err != nil ==> logv == old(logv) && commits == old(commits)
 //@   ensures [one-commit] commits <= old(commits) + 1
 //@   ensures [quiet] stdoutJSON == old(stdoutJSON) && stdoutText == old(stdoutText)
-//@   modifies ghost lk, ghost epoch, ghost blocking, ghost fsWrites, ghost fsExists, ghost logv, ghost commits, ghost appended, ghost logWrites, ghost tailTorn, ghost tmpStage, ghost readEpoch
+//@   modifies ghost lk, ghost epoch, ghost blocking, ghost fsWrites, ghost fsExists, ghost logv, ghost commits, ghost appended, ghost logWrites, ghost tailTorn, ghost tmpStage, ghost readEpoch, ghost readVersion
 //@ func RunPrune
 //@   requires [unlocked] lk == 0
 //@   ensures [released] lk == 0
@@ -1059,14 +1071,14 @@ func verifLemmaProgress(g *Graph, t *Task) {}
 //@   ensures [dry-run-pure] !confirm ==> logv == old(logv) && commits == old(commits)
 //@   ensures [json-one-value] opts.JSON && ret == nil ==> stdoutJSON == old(stdoutJSON) + 1 && stdoutText == old(stdoutText)
 //@   ensures [json-error-quiet] opts.JSON && ret != nil ==> stdoutJSON == old(stdoutJSON) && stdoutText == old(stdoutText)
-//@   modifies ghost lk, ghost epoch, ghost blocking, ghost fsWrites, ghost fsExists, ghost logv, ghost commits, ghost appended, ghost logWrites, ghost tailTorn, ghost tmpStage, ghost readEpoch
+//@   modifies ghost lk, ghost epoch, ghost blocking, ghost fsWrites, ghost fsExists, ghost logv, ghost commits, ghost appended, ghost logWrites, ghost tailTorn, ghost tmpStage, ghost readEpoch, ghost readVersion
 //@   modifies ghost stdoutJSON, ghost stdoutText, ghost stderrText
 //@ func RunShow
 //@   requires [unlocked] lk == 0
 //@   ensures [read-pure] logv == old(logv) && commits == old(commits) && lk == 0 && fsWrites == old(fsWrites)
 //@   ensures [json-one-value] opts.JSON && ret == nil ==> stdoutJSON == old(stdoutJSON) + 1 && stdoutText == old(stdoutText)
 //@   ensures [json-error-quiet] opts.JSON && ret != nil ==> stdoutJSON == old(stdoutJSON) && stdoutText == old(stdoutText)
-//@   modifies ghost readEpoch, ghost stdoutJSON, ghost stdoutText, ghost stderrText
+//@   modifies ghost readEpoch, ghost readVersion, ghost stdoutJSON, ghost stdoutText, ghost stderrText
 //@ func RunInit
 //@   ensures [no-log-primitive] logv == old(logv) && commits == old(commits)
 //@   ensures [hides-nothing] old(fileExists(activeLog(target))) ==> activeLog(target) == old(activeLog(target))
@@ -1162,7 +1174,7 @@ func verifLemmaProgress(g *Graph, t *Task) {}
 //@   ensures [read-pure] logv == old(logv) && commits == old(commits) && lk == 0 && fsWrites == old(fsWrites)
 //@   ensures [json-one-value] opts.JSON && ret == nil ==> stdoutJSON == old(stdoutJSON) + 1 && stdoutText == old(stdoutText)
 //@   ensures [json-error-quiet] opts.JSON && ret != nil ==> stdoutJSON == old(stdoutJSON) && stdoutText == old(stdoutText)
-//@   modifies ghost readEpoch, ghost stdoutJSON, ghost stdoutText, ghost stderrText
+//@   modifies ghost readEpoch, ghost readVersion, ghost stdoutJSON, ghost stdoutText, ghost stderrText
 //@ loop 0 range tasks
 //@   invariant [tasks-only] (tasksOnly == nil || (fresh(tasksOnly) && freshSinceEntry(tasksOnly))) && (forall k int :: 0 <= k && k < len(tasksOnly) ==> tasksOnly[k] != nil)
 //@   invariant [source-kept] forall k int :: 0 <= k && k < len(tasks) ==> tasks[k] != nil
@@ -1370,7 +1382,7 @@ func verifLemmaProgress(g *Graph, t *Task) {}
 //@   canary  [succeeds] ret != nil
 //@   canary  [fails] ret == nil
 //@   canary  [edge-written] !(ret == nil && len(out.Edges) == 2)
-//@   modifies cell out, ghost logv, ghost commits, ghost appended, ghost logWrites, ghost tailTorn, ghost tmpStage, ghost readEpoch
+//@   modifies cell out, ghost logv, ghost commits, ghost appended, ghost logWrites, ghost tailTorn, ghost tmpStage, ghost readEpoch, ghost readVersion
 //@ loop 0 range graph.Tasks
 //@   invariant [wf] wfMaps(graph) && freshMaps(graph) && workingIDs != nil && fresh(workingIDs)
 //@   invariant [copied] forall k string :: visited(k) ==> has(workingIDs, k)
@@ -1431,7 +1443,7 @@ func verifLemmaProgress(g *Graph, t *Task) {}
 //@   ensures [json-error-at-most-one] opts.JSON && ret != nil ==> stdoutJSON <= old(stdoutJSON) + 1 && stdoutText == old(stdoutText)
 //@   canary  [succeeds] ret != nil
 //@   canary  [fails] ret == nil
-//@   modifies ghost lk, ghost epoch, ghost blocking, ghost fsWrites, ghost fsExists, ghost logv, ghost commits, ghost appended, ghost logWrites, ghost tailTorn, ghost tmpStage, ghost readEpoch
+//@   modifies ghost lk, ghost epoch, ghost blocking, ghost fsWrites, ghost fsExists, ghost logv, ghost commits, ghost appended, ghost logWrites, ghost tailTorn, ghost tmpStage, ghost readEpoch, ghost readVersion
 //@   modifies ghost stdoutJSON, ghost stdoutText, ghost stderrText
 
 
